@@ -44,7 +44,18 @@ CLAIMED["C13"] = dict(
     note="Trusted: harness model text as the definition of what was written; rendering via noodles text writers. Known finding listed in known_findings.json (cut at a BGZF member boundary inside a text line).",
     engine="seq-sim")
 
-NOT_YET = {p: "claimed in DESIGN.md; check under construction in this round (will move to checks when registered)" for p in ["C03","C12","C14","C15","C16"]}
+CLAIMED["C12"] = dict(
+    category="exploration", design="DESIGN.md §8 C12",
+    technique="deterministic simulation: seeded search over delivery schedules (short reads, Interrupted, buffer capacities) with complete single-split/EINTR enumeration on small files; differential oracle plain vs adversarial delivery",
+    text="Every reader kind reads the same generated valid file through plain memory and through the delivery adversary (1-byte, "
+         "random, sparse, boundary-aligned and boundary-straddling short reads; Interrupted at chosen calls; std BufReader / "
+         "short-window BufRead of capacity 1..65536). The observation sequences (headers, records, bytes, virtual positions, error "
+         "kind and index) must be equal. For files <= 1500 bytes the one-fault space is enumerated completely (every split point, "
+         "1-byte delivery, EINTR before each read call); larger files (to ~300 KiB) are sampled. Sampling, not proof.",
+    note="Trusted: std::io::BufReader; harness retries Interrupted on byte-level calls as std consumers do. Known findings (Interrupted propagated by fill_buf scanners) are listed per reader kind in known_findings.json.",
+    engine="seq-sim")
+
+NOT_YET = {p: "claimed in DESIGN.md; check under construction in this round (will move to checks when registered)" for p in ["C03","C14","C15","C16"]}
 
 NOT_APPLICABLE = {
     "C04": "pure function of (records, block layout, index geometry, region): no schedule, fault, crash point or history in the statement; input generation with a scan oracle is not deterministic simulation. Reader-state carry-over between seeks is decided in C02, delivery independence of queries in C12, corrupt indexes in C15.",
